@@ -81,6 +81,7 @@ class Real:
         class U:
             def __init__(s, v):
                 s.v = v
+                s.hex = v          # uuid.UUID offers both str() and .hex
 
             def __str__(s):
                 return s.v
@@ -141,7 +142,8 @@ def gen_history(rng, nops):
     ops = []
     ids = []
     pool = ["j%d" % i for i in range(6)]
-    dss = ["t%d|o%d" % (i, k) for i in range(2) for k in range(2)]
+    # dataset ids incl. dotted task/output names whose repr ("task.output") coincide: ("a.b","c") vs ("a","b.c")
+    dss = ["t%d|o%d" % (i, k) for i in range(2) for k in range(2)] + ["a.b|c", "a|b.c"]
     ops.append({"op": "spawn", "candidates": [pool[0]]})
     ids.append(pool[0])
     for _ in range(nops):
